@@ -73,6 +73,17 @@ def split_arms(block, site):
         arms.append((pat, body.strip()))
     return arms
 
+GUARDS = {
+    # the queue is (still) in the scheduler's schedule: it was woken / rescheduled and nobody has claimed it yet
+    'schedule.iter().any(|scheduled_queue| Arc::ptr_eq(scheduled_queue, queue))': 'scheduled',
+}
+def split_guard(pat, site):
+    m = re.search(r'\sif\s', pat)
+    if not m: return pat, None
+    g = re.sub(r'\s+', ' ', pat[m.end():]).strip()
+    if g not in GUARDS: raise TranslateError(site, "match guard not understood: %r" % g)
+    return pat[:m.start()].strip(), GUARDS[g]
+
 def pat_matches(pat, st, site, enum='QueueState'):
     base = st.split(':')[0]
     for alt in pat.split('|'):
@@ -161,8 +172,12 @@ def table(src, fn, site, is_running, scrut=r'[\w.]+\.state|current_state|self', 
     for st in STATES:
         for empty in (True, False):
             for pat, arm in arms:
+                pat, guard = split_guard(pat, site)
                 if pat_matches(pat, st, site):
+                    # a guarded arm is evaluated for the case in which its guard holds (when it does not hold the match falls through
+                    # to the later arms); the guard is reported next to the row so that the model side can say when the row applies
                     env = eval_block(arm, Env(st, empty, is_running), site)
+                    if guard: env.flags['guard'] = guard
                     new, res = env.st, env.result
                     if assign and res is not None and res.startswith('QueueState::'):
                         new, res = res.split('::')[1], None
@@ -272,6 +287,13 @@ def facts_of(R):
     F['sync_bg_push_back'] = count(r'core\.queue\.push_back\(unsafe_job\)', sbg) == 1 and count(r'push_front', sbg) == 0
     F['sync_bg_registers_before_push'] = bool(re.search(r'wake_blocked\.push\(.*?core\.queue\.push_back\(unsafe_job\)', sbg, flags=re.S))
     F['sync_bg_resched_if_idle'] = bool(re.search(r'core\.state\s*==\s*QueueState::Idle\s*\}\s*;\s*if\s+need_reschedule\s*\{\s*self\.reschedule_queue\(queue\)\s*;\s*\}', sbg))
+    # the decision of sync / try_sync / sync_no_panic is dispatched to the routine the model's action names mean
+    def dispatch(fn, pairs):
+        b = find_fn(ds, fn, 'fact:dispatch_' + fn, impl='Scheduler')
+        return all(bool(re.search(r'RunAction::%s\s*=>\s*%s' % (a, c), b)) for a, c in pairs) and count(r'RunAction::\w+\s*=>\s*[^,\n]*self\.sync_\w+\(', b) == sum(1 for a, c in pairs if 'self' in c)
+    F['dispatch_sync'] = dispatch('sync', [('Immediate', r'self\.sync_immediate\(queue,\s*job\)'), ('DrainOnThisThread', r'self\.sync_drain\(queue,\s*job\)'), ('WaitForBackground', r'self\.sync_background\(queue,\s*job\)'), ('Panic', r'panic!')])
+    F['dispatch_try_sync'] = dispatch('try_sync', [('Immediate', r'Ok\(self\.sync_immediate\(queue,\s*job\)\)'), ('Busy', r'Err\(TrySyncError::Busy\)'), ('Panic', r'panic!')])
+    F['dispatch_sync_no_panic'] = dispatch('sync_no_panic', [('Immediate', r'\{\s*self\.sync_immediate\(queue,\s*job\)\s*;\s*false\s*\}'), ('DrainOnThisThread', r'\{\s*self\.sync_drain\(queue,\s*job\)\s*;\s*false\s*\}'), ('WaitForBackground', r'\{\s*self\.sync_background\(queue,\s*job\)\s*;\s*false\s*\}'), ('Panic', r'true')])
     # sticky notification (repair of F2): a 'kicked' flag consulted before waiting
     rqf0 = find_fn(core, 'reschedule_queue', 'fact:resched')
     F['sticky_notify'] = (bool(re.search(r'if\s*!rescheduled\.swap\(false,[^)]*\)\s*\{\s*ready\s*=\s*wakeup\.wait\(ready\)[^;]*;\s*continue\s*;\s*\}', sbg))
@@ -523,6 +545,9 @@ def emit_coq(isr, T, D, F):
         raise TranslateError('table:claim', 'value %r' % r)
     o.append("\nDefinition g_claim (st : qstate) : option qstate :=")
     o.append(emit_rows(T['claim'], clm))
+    # rows of g_claim that apply only while the queue is in the schedule (match guard in the source)
+    o.append("\nDefinition g_claim_needs_scheduled (st : qstate) : bool :=")
+    o.append(emit_rows(T['claim'], lambda n, r, f: 'true' if f.get('guard') == 'scheduled' else 'false'))
     def dqr(n, r, f):
         if r == 'None': return 'true'
         if r is not None and 'pop_front' in r: return 'false'
